@@ -643,6 +643,64 @@ func c16CoercedSub() *engine.Sub {
 	}
 }
 
+// c16CoercedSeqSub: the same conversion for one key after another.
+func c16CoercedSeqSub() *engine.Sub {
+	const n = 24
+	return &engine.Sub{
+		Name:   "ecdsa-typed-secp256k1-keys-one-after-another",
+		Serial: true,
+		Rule:   "every ordered pair (a, b) of the points 1*G .. 24*G on secp256k1 (y even and odd, both many times) held as libp2p ECDSA keys: did.FromPubKey(a), then did.FromPubKey(b) in the same process - the DID of b is the did:key of b's compressed point and yields that point, whatever was converted before; non-trivial = all",
+		Bound:  func(string) string { return fmt.Sprintf("%d x %d ordered pairs", n, n) },
+		Gen: func(tier string, emit func(any) bool) {
+			for a := 1; a <= n; a++ {
+				for b := 1; b <= n; b++ {
+					if !emit(&c16CoercedCase{Scalar: a, Why: fmt.Sprintf("then:%d", b)}) {
+						return
+					}
+				}
+			}
+		},
+		NewCase: func() any { return &c16CoercedCase{} },
+		Run: func(ctx *engine.Ctx, c any) {
+			cs := c.(*c16CoercedCase)
+			var second int
+			fmt.Sscanf(cs.Why, "then:%d", &second)
+			curve := secp256k1.S256()
+			ctx.States(1)
+			ctx.Nontrivial(1)
+			for step, k := range []int{cs.Scalar, second} {
+				x, y := curve.ScalarBaseMult(big.NewInt(int64(k)).Bytes())
+				pub, err := crypto.ECDSAPublicKeyFromPubKey(ecdsa.PublicKey{Curve: curve, X: x, Y: y})
+				if err != nil {
+					panic(err)
+				}
+				ctx.Eval(1)
+				ctx.Trans(1)
+				d, err := did.FromPubKey(pub)
+				if err != nil {
+					ctx.Failf(cs, "frompubkey-fails/ecdsa-typed-secp256k1/in-sequence", "did.FromPubKey fails for %d*G (call %d of the pair %d, %d): %v", k, step+1, cs.Scalar, second, err)
+					return
+				}
+				want := didKeyString(uvarint(0xe7), elliptic.MarshalCompressed(curve, x, y))
+				if d.String() != want {
+					ctx.Failf(cs, "string-not-canonical/ecdsa-typed-secp256k1/in-sequence", "the DID of %d*G (y %s), converted after %d*G, prints as %s, want %s", k, map[uint]string{0: "even", 1: "odd"}[y.Bit(0)], cs.Scalar, d.String(), want)
+					return
+				}
+				pk, err, pan := safePubKey(d)
+				if err != nil || pan != nil {
+					ctx.Failf(cs, "pubkey-extraction-fails/ecdsa-typed-secp256k1/in-sequence", "PubKey() fails: %v %v", err, pan)
+					return
+				}
+				if raw, _ := pk.Raw(); !bytes.Equal(raw, elliptic.MarshalCompressed(curve, x, y)) {
+					ctx.Failf(cs, "extracted-key-differs/ecdsa-typed-secp256k1/in-sequence", "PubKey() of the DID of %d*G, converted after %d*G, is another point", k, cs.Scalar)
+					return
+				}
+			}
+			ctx.Outcome("roundtrip-ok")
+		},
+	}
+}
+
 // ---- RSA public keys of every size libp2p accepts ----
 
 type c16RsaCase struct {
@@ -936,7 +994,7 @@ func C16() *engine.Check {
 	return &engine.Check{
 		Property: "C16",
 		Level:    "model_checking",
-		Subs:     []*engine.Sub{c16RoundtripSub(), c16RsaSub(), c16WeakRsaSub(), c16ManySub(), c16KeptSub(), c16GivenSub(), c16CoercedSub(), c16AltSub(), c16StringsSub(), c16CodesSub(), c16PrefixSub(), c16ConcSub(), concRaceSub("C16")},
+		Subs:     []*engine.Sub{c16RoundtripSub(), c16RsaSub(), c16WeakRsaSub(), c16ManySub(), c16KeptSub(), c16GivenSub(), c16CoercedSub(), c16CoercedSeqSub(), c16AltSub(), c16StringsSub(), c16CodesSub(), c16PrefixSub(), c16ConcSub(), concRaceSub("C16")},
 		Assumptions: []string{
 			"keys: committed fixtures plus one key per Generate* call per run; the conversion code has no key-dependent branches except leading-zero coordinates, which the 8 EC fixtures do not force",
 			"the canonical key material is computed independently: compressed SEC1 point for EC keys, raw 32 bytes for Ed25519, PKCS#1 DER for RSA",
